@@ -175,6 +175,16 @@ impl Int {
     }
 }
 
+// ------------------------------------------------------------------------------------------ loose parsing
+
+/// Authoring aid (stream `c13_mk`): when set, the positions that must carry the output of a third-party
+/// formatter (float tokens, Display texts, RFC 3339 texts) are not checked while parsing, so a hand-written
+/// line with placeholders can be re-printed in canonical form. Never set by `run` of the checked streams.
+pub static LOOSE: std::sync::atomic::AtomicBool = std::sync::atomic::AtomicBool::new(false);
+fn loose() -> bool {
+    LOOSE.load(std::sync::atomic::Ordering::Relaxed)
+}
+
 // ------------------------------------------------------------------------------------------ floats
 
 /// the token `sval_json` (ryu) prints for a finite f64; `null` for non-finite values
@@ -196,7 +206,7 @@ pub fn f64_parse(args: &[Sexp]) -> Option<f64> {
     }
     let x = f64::from_bits(args[0].as_u64()?);
     // the tokens are outputs of third-party formatters (ryu, core::fmt); the case must carry the real ones
-    if args[1].as_string()? != json_tok_f64(x) || args[2].as_string()? != format!("{}", x) {
+    if !loose() && (args[1].as_string()? != json_tok_f64(x) || args[2].as_string()? != format!("{}", x)) {
         return None;
     }
     Some(x)
@@ -461,9 +471,10 @@ impl Tree {
             ("f64", 3) => Some(Tree::F64(f64_parse(args)?)),
             ("f32", 4) => {
                 let x = f32::from_bits(u32::try_from(args[0].as_u64()?).ok()?);
-                if args[1].as_u64()? != (x as f64).to_bits()
-                    || args[2].as_string()? != json_tok_f32(x)
-                    || args[3].as_string()? != format!("{}", x as f64)
+                if !loose()
+                    && (args[1].as_u64()? != (x as f64).to_bits()
+                        || args[2].as_string()? != json_tok_f32(x)
+                        || args[3].as_string()? != format!("{}", x as f64))
                 {
                     return None;
                 }
@@ -674,7 +685,7 @@ impl Val {
             ("sv", 2) => {
                 let t = Tree::parse(&args[0])?;
                 // the Display text is an output of sval_fmt; the case must carry the real one
-                if args[1].as_string()? != Value::from_sval(&t).to_string() {
+                if !loose() && args[1].as_string()? != Value::from_sval(&t).to_string() {
                     return None;
                 }
                 Some(Val::Sv(t))
@@ -727,7 +738,7 @@ impl TsD {
         }
         let t = TsD { secs: l[0].as_u64()?, nanos: u32::try_from(l[1].as_u64()?).ok()? };
         // the RFC 3339 text is an output of the timestamp formatter (C15); the case must carry the real one
-        if l[2].as_string()? != t.to_ts()?.to_string() {
+        if !loose() && l[2].as_string()? != t.to_ts()?.to_string() {
             return None;
         }
         Some(t)
